@@ -261,14 +261,14 @@ func (e *vfEnv) Mount(t testing.TB, c vfCred) uint64 {
 // ---------------------------------------------------------------- argument builders
 
 type vfSattr struct {
-	Mode    *uint32
-	UID     *uint32
-	GID     *uint32
-	Size    *uint64
+	Mode     *uint32
+	UID      *uint32
+	GID      *uint32
+	Size     *uint64
 	AtimeHow uint32 // 0,1,2
 	MtimeHow uint32
-	Atime   [2]uint32
-	Mtime   [2]uint32
+	Atime    [2]uint32
+	Mtime    [2]uint32
 }
 
 func u32p(v uint32) *uint32 { return &v }
@@ -446,8 +446,10 @@ func vfArgsCommit(fh uint64, off uint64, count uint32) []byte {
 // ---------------------------------------------------------------- schema-driven XDR decoder
 
 // A schema type is one of:
-//   "u32" "u64" "bool" "string" "opaque" "fh" "verf8"
-//   ["struct", [[name, T], ...]]   ["opt", T]   ["list", T]   ["ref", name]
+//
+//	"u32" "u64" "bool" "string" "opaque" "fh" "verf8"
+//	["struct", [[name, T], ...]]   ["opt", T]   ["list", T]   ["ref", name]
+//
 // A procedure result is {"ok": T, "fail": T}, chosen by the leading status word.
 type vfSchema struct {
 	Types map[string]interface{}            `json:"types"`
